@@ -64,8 +64,14 @@ func TestVerifC05(t *testing.T) {
 	// 1. fixed corpus: every history plain, with both walk flavours, and a failure at EVERY backend call index
 	//    (EIO at every call; a QID list of the wrong length at every Walk / WalkGetAttr)
 	for _, ops := range vh05Corpus() {
+		if vhsTooStuck() {
+			break
+		}
 		for _, wga := range []bool{true, false} {
 			for idx, tag := range calls(ops, wga) {
+				if vhsTooStuck() {
+					break
+				}
 				if tag == 10 {
 					continue // Renamed has no result
 				}
@@ -93,7 +99,7 @@ func TestVerifC05(t *testing.T) {
 	if thorough {
 		nshort = 12
 	}
-	for i := 0; i < nshort; i++ {
+	for i := 0; i < nshort && !vhsTooStuck(); i++ {
 		ops := vhgHistory(r, 7, "life", i%2 == 0, 1, 4, 2)
 		for at := range ops {
 			_, m, _ := vhsNewSess(true, nil).build(ops[at])
@@ -111,7 +117,7 @@ func TestVerifC05(t *testing.T) {
 	if thorough {
 		nhist = 400
 	}
-	for i := 0; i < nhist; i++ {
+	for i := 0; i < nhist && !vhsTooStuck(); i++ {
 		wga := r.Intn(2) == 0
 		ops := vhgHistory(r, 15+r.Intn(25), "life", wga, 2, 6, 3)
 		n := len(calls(ops, wga))
